@@ -77,6 +77,8 @@ class CorpusShufflingTool:
         continuum.bound_inf, continuum.bound_sup = self._reference_continuum.bounds
         if isinstance(new_annotators, int):
             new_annotators = [f"annotator_{i}" for i in range(new_annotators)]
+        else:
+            new_annotators = list(new_annotators)  # any iterable is accepted : it is gone through once per unit
         for unit in self._reference_continuum.iter_annotator(self._reference_annotator):
             for new_annotator in new_annotators:
                 continuum.add(new_annotator,
